@@ -26,11 +26,17 @@ var idAlphabet = func() []byte {
 	return out
 }()
 
-// idBytes returns n distinct identifying bytes starting at offset off of the alphabet.
+// idBytes returns n identifying bytes starting at offset off of the alphabet: distinct while n fits the alphabet;
+// beyond that the sequence continues pseudo-randomly (not periodically: a periodic sequence whose length is a
+// multiple of the period equals some of its own rotations, which made a rotated output look un-rotated).
 func idBytes(off, n int) []byte {
 	out := make([]byte, n)
 	for i := range out {
-		out[i] = idAlphabet[(off+i)%len(idAlphabet)]
+		if i < len(idAlphabet) {
+			out[i] = idAlphabet[(off+i)%len(idAlphabet)]
+		} else {
+			out[i] = idAlphabet[splitmix(uint64(off)*1000003+uint64(i))%uint64(len(idAlphabet))]
+		}
 	}
 	return out
 }
